@@ -243,6 +243,8 @@ def families(tier):
         make_family('put_invs+put_traits', [put_invs(1), put_traits(2)]),
         make_family('put_traits+put_aggs', [put_traits(1), put_aggs(2)]),
         make_family('put_invs+put_alloc', [put_invs(1), put_alloc(2)]),
+        # every guarded route at least once in the quick tier
+        make_family('put_inv+put_aggs', [put_inv(1), put_aggs(2)]),
         make_family('reshape_both+put_invs', [reshape_both(1), put_invs(2)]),
         # a retried write (duplicate-key race while an aggregate is first
         # recorded) with another guarded write committing in between
